@@ -5,6 +5,9 @@
 (* linearisation: every call takes effect at a silent step between its inv and its ret, and the   *)
 (* server it returned must be one the contract allows at that point (member of the list current   *)
 (* then; least-chosen for roundRobin; the key's server for the hash policies; ...).               *)
+(* Some calls are spread out by the harness: the caller loads the pool's balancer, waits until the *)
+(* watcher's useService has returned, and only then chooses (inv.held); such a call still has to   *)
+(* take effect at one instant between its inv and its ret, in the list current at that instant.     *)
 (* The harness copies the value a call is going to return into its inv event (field r), so the    *)
 (* search only places the call, it does not guess its result.                                     *)
 (*   reset   cfg                                                                                  *)
